@@ -210,8 +210,10 @@ def work(item):
 
 def bound_entries(S):
     out = []
+    import re as _re
+
     for nm, idx in S.V.index.items():
-        if nm.startswith("r") and idx:
+        if idx and _re.fullmatch(r"r\d+_\d+(_re|_im)?", nm):  # the state entries only (not the algebraic constants r2, r3, ...)
             v = S.zvar(idx)
             out += [v <= 1, v >= -1]
     return out
